@@ -15,6 +15,7 @@ import FastPasta.Model.Cdp
 import FastPasta.Spec.Diagram
 import FastPasta.Proofs.FsmTable
 import FastPasta.Proofs.FsmSrcTie
+import FastPasta.Proofs.WordsSrcTie
 namespace FastPasta
 namespace C09
 open DiagramGen
@@ -143,6 +144,13 @@ theorem ambiguity_reported (cfg : CheckCfg) (s : CdpSt) (w : Bytes)
   · -- errDdw0OrTdhIhw
     simp only [checkWord, hadv]
     exact ⟨_, List.mem_cons_self, by simp [CdpSt.wordPos], rfl, Or.inr (Or.inr rfl)⟩
+
+/-- **model = translated source, including the two flag bits**: the word-level step of the model is the source's `advance`
+    applied to the identifier byte and to the source's own `tdh_no_data` / `tdt_packet_done` predicates
+    (`Spec/WordsSrcGen.lean`, translated from `status_words/util.rs` on this run) -/
+theorem fsmAdvance_eq_src_flags (s : FsmSt) (w : Bytes) :
+    fsmAdvance s w = SrcFsm.step s (wordId w) (SrcWords.tdh_no_data w) (SrcWords.tdt_packet_done w) := by
+  rw [SrcTie.tdh_no_data_eq, SrcTie.tdt_packet_done_eq]; exact fsmAdvance_eq_src s w
 
 end C09
 end FastPasta
